@@ -51,3 +51,13 @@ Fixpoint announce_all (unsup : list N) (m : list (N * N)) (h : list (list (N * N
     let '(m1, o, _) := announce unsup m a in
     let '(os, m2) := announce_all unsup m1 t in (o :: os, m2)
   end.
+
+(* histories in which set-up finishes at some point: before that no kind is unsupported *)
+Inductive hev := HAnn (pairs : list (N * N)) | HSetup (unsup : list N).
+
+Fixpoint announce_hist (unsup : list N) (m : list (N * N)) (h : list hev) : list (list N) :=
+  match h with
+  | [] => []
+  | HAnn a :: t => let '(m1, o, _) := announce unsup m a in o :: announce_hist unsup m1 t
+  | HSetup u :: t => [] :: announce_hist u m t
+  end.
